@@ -316,9 +316,15 @@ impl Consume for SenderFlowState {
     /// does not have any effect. Thus, this IS cancel safe.
     async fn consume(&self, item: Self::Item) -> Self::Outcome {
         loop {
+            // Register for the notification *before* checking the credit.
+            // `notify_waiters` only wakes `Notified` futures that already
+            // exist, so a grant landing between a failed check and the
+            // creation of the future would otherwise be lost and the send
+            // would sleep until the next flow.
+            let notified = self.notifier.notified();
             match consume_link_credit(&self.state().lock, item) {
                 Ok(outcome) => return outcome,
-                Err(_) => self.notifier.notified().await, // **NOT** cancel safe
+                Err(_) => notified.await, // **NOT** cancel safe
             }
         }
     }
